@@ -11,7 +11,7 @@
    unbounded recursion of the code (frame reassembly) recurses on the input. *)
 From Coq Require Import List NArith ZArith.
 From Cedar Require Import Lib.Bytes gen.Consts Model.Msg Model.Decode Model.Sinful Model.Version gen.FactsC13 Proofs.C13 Proofs.C13ad Proofs.C13raw Proofs.C13sinful Proofs.C13version Proofs.C13sites.
-From Cedar Require Import Model.Addr Proofs.C13addr Model.PassSock Proofs.C13passsock Model.Watch Proofs.C13watch.
+From Cedar Require Import Model.Addr Proofs.C13addr Model.PassSock Proofs.C13passsock Model.Watch Proofs.C13watch Proofs.C13watchrt.
 Import ListNotations.
 Local Open Scope N_scope.
 
@@ -422,3 +422,24 @@ Example C13_watch_example :
   /\ decode_request {| wa_type := Some []; wa_constraint := None; wa_cursor := None |} = WErr
   /\ decode_header (encode_header 3 (Some [x00; xff]) None) = WOk (3%Z, [x00; xff], []).
 Proof. repeat split; vm_compute; reflexivity. Qed.
+
+(* Round trips (Proofs/C13watchrt.v).  base64 decoding inverts encoding for EVERY byte string
+   (all 256 byte values, every length mod 3), so decodeBytes . encodeBytes is the identity; hence
+   DecodeRequest . EncodeRequest returns the three fields for every non-empty ad type (an empty
+   one is refused by the decoder), and DecodeHeader . EncodeHeader returns kind, key and cursor
+   (nil and empty both read back as empty). *)
+Theorem C13_watch_base64_round_trip :
+  forall b : bytes, b64_decode (b64_encode b) = B64Ok b /\ decode_bytes (encode_bytes b) = B64Ok b.
+Proof. exact (fun b => conj (b64_round_trip b) (decode_encode_bytes b)). Qed.
+Print Assumptions C13_watch_base64_round_trip.
+
+Theorem C13_watch_request_round_trip :
+  forall t c cur : bytes, t <> [] -> decode_request (encode_request t c cur) = WOk (t, c, cur).
+Proof. exact watch_request_round_trip. Qed.
+Print Assumptions C13_watch_request_round_trip.
+
+Theorem C13_watch_header_round_trip :
+  forall (k : Z) (key cur : option bytes),
+    decode_header (encode_header k key cur) = WOk (k, opt_str key, opt_str cur).
+Proof. exact watch_header_round_trip. Qed.
+Print Assumptions C13_watch_header_round_trip.
